@@ -334,8 +334,10 @@ func (r *Run) execMakeSlice(fr *Frame, x *ssa.MakeSlice) {
 	elem := x.Type().Underlying().(*types.Slice).Elem()
 	lt := r.get(fr, x.Len).(*Term)
 	ct := r.get(fr, x.Cap).(*Term)
-	lt = r.ctx.Resize(lt, 64, true)
-	ct = r.ctx.Resize(ct, 64, true)
+	_, ls, _ := isIntType(x.Len.Type())
+	_, cs, _ := isIntType(x.Cap.Type())
+	lt = r.ctx.Resize(lt, 64, ls)
+	ct = r.ctx.Resize(ct, 64, cs)
 	if lt.IsConst() && ct.IsConst() {
 		n, cp := signExtend(lt.CV, 64), signExtend(ct.CV, 64)
 		if n < 0 || cp < n || n > maxConcreteAlloc {
